@@ -119,8 +119,15 @@ func init() {
 			} else {
 				s = in.bstr(a[0])
 			}
-			const maxIn = 12
+			// two arities: inputs bounded by 12 bytes (the common case, cheap) and by 40 bytes (keys); the two are
+			// different uninterpreted functions, i.e. a short and a long input are never assumed to collide or agree
+			maxIn := 12
+			name := name
 			b := in.strBytes(s)
+			if len(b) > maxIn {
+				maxIn = 40
+				name += "_w40"
+			}
 			if len(b) > maxIn {
 				abortf("%s of more than %d bytes is outside the digest model", name, maxIn)
 			}
